@@ -368,18 +368,17 @@ func c06Birthday(n int) func(c *sim.Case) {
 		if sampled > 100000 {
 			sampled = 100000
 		}
-		for i, pc := range posCount {
-			if len(pc) == 0 {
-				continue
-			}
-			h := 0.0
+		// sum of the per-position entropies of the session id: an upper bound on what it can carry (single positions may
+		// well be poor - the last character of a base64 string, a time prefix - the whole must not be)
+		sumH := 0.0
+		for _, pc := range posCount {
 			for _, k := range pc {
 				p := float64(k) / float64(sampled)
-				h -= p * math.Log2(p)
+				sumH -= p * math.Log2(p)
 			}
-			if h < 4 {
-				c.Violation("entropy-floor:position", "character position %d of the session id has only %.2f bits of empirical entropy", i, h)
-			}
+		}
+		if sumH < 120 {
+			c.Violation("entropy-floor:marginals", "the per-position entropies of the session id add up to %.0f bits over %d sampled ids", sumH, sampled)
 		}
 		c.Logf("%d generators, %d identifiers, no two equal; alphabet %d, min length %d (<= %.0f bits)", n, 3*n, len(chars), minLen, bits)
 		c.NonTrivial()
